@@ -7,6 +7,12 @@
   theorems below say what a passed check means — in terms of Mathlib's `matches'`.  For the bundled
   and hand-written schemas the instances `equivCheck dfa Σ expr V = true` are regenerated from the
   source on every run into `Gen/DfaCerts.lean` and proved there by `decide +kernel`.
+
+  Parts: the checker route; the compiler for every expression; the schema constructor as a whole; the agreement of
+  the two readers; and (last) the refusal side — the dead end stated on the expression itself (`DeadEndSpec`,
+  decidable), its equivalence with `check_for_dead_ends` on the compiled automaton, which refusal `Schema(spec)` gives
+  when several apply, what the reasons mean, exact acceptance, and the spec-level dead-end search of op `c06` with its
+  allowance.
 -/
 import PM.Regex
 import PM.Compile
@@ -802,13 +808,15 @@ theorem c06_dead_correct (table : List NameInfo) (s : String) (r : RE) (h : spec
 
 /-- **the allowance**: the exploration visits pairwise different sets of partial derivatives of `r` (Antimirov:
     all of them among `r :: pdAll r`), at most `2 ^ (#pdAll r + 1)` of them, each with `#sigma` successors; with an
-    allowance of `reachFuel sigma r = 1 + 2 ^ (#pdAll r + 1) * #sigma` or more the search answers.  In particular
+    allowance of `reachFuel sigma r = 1 + 2 ^ (#pdAll r + 1) * #sigma` or more the search answers; `#pdAll r` is the
+    number of symbol occurrences of `r` (`r.syms.length`: names after group expansion and unrolling of the counts).  In particular
     "unknown" is unreachable in op `c06` (allowance 200000) for every expression with `reachFuel sigma r ≤ 200000`,
     and with the structural allowance for every expression -/
 theorem hasDeadEnd?_answers (sigma : List Nat) (gen : Nat → Bool) (r : RE) :
+    reachFuel sigma r = 1 + 2 ^ (r.syms.length + 1) * sigma.length ∧
     (∀ fuel, reachFuel sigma r ≤ fuel → ∃ b, hasDeadEndWith? fuel sigma gen r = some b) ∧
     (reachFuel sigma r ≤ 200000 → ∃ b, hasDeadEnd? sigma gen r = some b) :=
-  ⟨fun fuel hf => hasDeadEndWith?_total fuel sigma gen r hf, hasDeadEnd?_total sigma gen r⟩
+  ⟨reachFuel_eq sigma r, fun fuel hf => hasDeadEndWith?_total fuel sigma gen r hf, hasDeadEnd?_total sigma gen r⟩
 
 /-- so the declarative dead end is decidable: the search with the structural allowance over the symbols of the
     expression (`decDeadEnd`) is a decision procedure for it (registered as the `Decidable` instance) -/
@@ -857,7 +865,7 @@ private def exDead : Spec :=
     and `decide` on the specification -/
 example : buildSchema exDead = .error .deadEnd := by
   have hnone : ∀ n ∈ exDead.nodes, n.marks = none := by decide
-  refine (buildSchema_rejects_deadEnd_iff exDead ⟨⟨0, by decide⟩, 2, by decide, by decide⟩ (by decide)
+  refine (buildSchema_rejects_deadEnd_iff exDead (by decide) (by decide)
     (fun n hn e he => by rw [hnone n hn] at he; cases he)
     (fun i hi => exists_ok_of_toBool (by revert i; decide +kernel))).2 ?_
   exact ⟨5, by decide, RE.seq (RE.star (RE.sym 3)) (RE.sym 4), by decide +kernel, by decide +kernel⟩
@@ -876,7 +884,7 @@ private def exMany : Spec := {
   marks := [{ name := "em", excludes := some "nomark" }] }
 
 example : ∃ ce, buildSchema exMany = .error (.content ce) ∧ ce.toPErr = .unknownName :=
-  ((buildSchema_refusal_kind exMany ⟨⟨0, by decide⟩, 2, by decide, by decide⟩ 0 (by decide)
+  ((buildSchema_refusal_kind exMany (by decide) 0 (by decide)
     (fun j hj => absurd hj (Nat.not_lt_zero j))).2 (by decide) (by decide +kernel)).1 .unknownName (by decide +kernel)
 
 end PM.C06
